@@ -50,6 +50,9 @@ def run(ctx):
     from sa.engine import SubCtx
     from rules import c01, c03
     c01.r3_r4_r5(SubCtx(ctx, {'R4': 'R5'}))
+    from rules import atoms
+    atoms.delta_bookkeeping(ctx, 'R5')
+    atoms.budget_predicate(ctx, 'R3')
     # R6: what is recorded for a stabilising block must not depend on how its ingestion is sliced: the
     # header is stored, for the block peek returned and at the current stable height, before ingestion
     # starts (shared with C03.R2), and the stable height advances once, on completion (C03.R1)
